@@ -249,7 +249,7 @@ func (s *session) execInsert(st *ast.InsertStmt, args []interface{}) (*outcome, 
 			generated := false
 			if t.autoCol >= 0 {
 				if vals[t.autoCol] == int64(0) {
-					vals[t.autoCol] = t.autoInc
+					vals[t.autoCol] = t.nextAuto()
 					generated = true
 				} else {
 					lastExplicit = vals[t.autoCol].(int64)
@@ -668,7 +668,7 @@ func (e *Engine) infoTable(name string) *table {
 			t := e.tables[strings.ToLower(tn)]
 			var ai interface{}
 			if t.autoCol >= 0 {
-				ai = t.autoInc
+				ai = t.nextAuto()
 			}
 			rows = append(rows, Row{"def", e.name, t.def.Name, "BASE TABLE", "InnoDB", int64(len(t.rows)), ai})
 		}
